@@ -63,10 +63,12 @@ pub trait IoRead {
 // ---- the writer: stands for std::io::Write::write_all (A3)
 pub trait IoWrite {
     spec fn written(&self) -> Seq<u8>;
+    spec fn can_fail(&self) -> bool;
     fn write_all(&mut self, d: &[u8]) -> (r: Result<(), io::Error>)
       ensures
         r is Ok ==> final(self).written() == old(self).written() + d@,
-        r is Err ==> wrote_prefix(old(self).written(), final(self).written(), d@);
+        r is Err ==> wrote_prefix(old(self).written(), final(self).written(), d@) && old(self).can_fail(),
+        final(self).can_fail() == old(self).can_fail();
 }
 
 pub open spec fn is_prefix(a: Seq<u8>, b: Seq<u8>) -> bool {
@@ -80,9 +82,9 @@ pub open spec fn wrote_prefix(before: Seq<u8>, now: Seq<u8>, full: Seq<u8>) -> b
 // Vec<u8> as a sink: never fails (std's impl Write for Vec<u8>)
 impl IoWrite for Vec<u8> {
     open spec fn written(&self) -> Seq<u8> { self@ }
+    open spec fn can_fail(&self) -> bool { false }
     #[verifier::external_body]
     fn write_all(&mut self, d: &[u8]) -> (r: Result<(), io::Error>)
-      ensures r is Ok
     { std::io::Write::write_all(self, d) }
 }
 
